@@ -1,5 +1,6 @@
 import Rspirv.Generic.Name
 import Rspirv.Generated.Spirv
+import Rspirv.Generated.Grammar
 /-!
 Line-protocol driver: evaluates the Lean model's executable definitions on requests read from stdin,
 one response per line. Built as a `lean_exe` (imports nothing outside core/Std).
@@ -59,6 +60,15 @@ def respond (line : String) : String :=
       | some v => s!"maskconst {m} {c} {v}"
       | none => s!"maskconst {m} {c} unknown"
     | none => s!"maskconst {m} {c} unknown"
+  | ["lookup", t, n] =>
+    let tbl := if t == "core" then Rspirv.Generated.Grammar.coreTable
+               else if t == "glsl" then Rspirv.Generated.Grammar.glslTable
+               else Rspirv.Generated.Grammar.openclTable
+    match n.toNat? with
+    | some k => match lookupOpcode tbl k with
+      | some e => s!"lookup {t} {n} some {nameString e.name} {e.opcode}"
+      | none => s!"lookup {t} {n} none"
+    | none => "bad-request"
   | _ => "bad-request"
 
 partial def loop (h : IO.FS.Stream) (out : IO.FS.Stream) : IO Unit := do
